@@ -293,7 +293,7 @@ class KlongInterpreter():
         Fetch the operands of a compiled expression.
 
         Compiled code is specialised on what the compiler admitted for each
-        variable: a Python int/float or a backend array.  A compilation is kept
+        variable: a Python int/float or a numeric backend array.  A compilation is kept
         on the syntax tree and may run again after a variable (or a function
         argument) has been rebound to something else, e.g. a string, for which
         the Python operators mean something different.  Re-check the admission
@@ -306,7 +306,8 @@ class KlongInterpreter():
         for s in var_syms:
             v = self._context[s]
             tv = type(v)
-            if not (tv is int or tv is float or (isinstance(v, ndarray) and self._backend.array_size(v) > 0)):
+            if not (tv is int or tv is float or
+                    (isinstance(v, ndarray) and v.dtype != object and self._backend.array_size(v) > 0)):
                 raise TypeError(f"compiled expression does not apply to {s}")
             args.append(v)
         return args
